@@ -50,13 +50,8 @@ K("icc.short_payload_10", ["C18", "C01"], "jxl-color", _D, _DM, "icc_short_paylo
 K("icc.end_size_mismatch", ["C18"], "jxl-color", _D, _DM, "icc_end_size_mismatch",
   "bounded:[no tags; 1 x6] with output_size 133 and 135, all data bytes", _F,
   "all commands and data consumed but decoded length != output_size => Err (both directions)", kani_args=_NR)
-# a failing read inside varint()/flags (io::Error built and dropped) costs ~100 s of SAT each: thorough tier
-K("icc.cmd_truncated_a", ["C18", "C01"], "jxl-color", _D, _DM, "icc_cmd_truncated_a",
-  "bounded:complete profile followed by command 1 without length / command 4 without flags, all data bytes", _F, "Err", tier="thorough", timeout=1200, kani_args=_NR)
-K("icc.cmd_truncated_b", ["C18", "C01"], "jxl-color", _D, _DM, "icc_cmd_truncated_b",
-  "bounded:complete profile followed by command 4 without its stride / without its length, all data bytes", _F, "Err", tier="thorough", timeout=1200, kani_args=_NR)
-K("icc.cmd_truncated_c", ["C18", "C01"], "jxl-color", _D, _DM, "icc_cmd_truncated_c",
-  "bounded:empty command stream (no tag count) / complete profile followed by an unterminated length varint, all data bytes", _F, "Err", tier="thorough", timeout=1200, kani_args=_NR)
+K("icc.cmd_truncated", ["C18", "C01"], "jxl-color", _D, _DM, "icc_cmd_truncated",
+  "bounded:empty command stream (no tag count); complete profile followed by command 4 without flags; all data bytes", _F, "Err", kani_args=_NR)
 K("icc.tag_literal", ["C18", "C01"], "jxl-color", _D, _DM, "icc_tag_literal",
   "bounded:command stream [1 tag; tagcode 1 without flags; end; 1 x20], all tag names and data bytes", _F,
   "entry == (name from the data stream, 128 + 12, 20 if the NAME is one of rXYZ gXYZ bXYZ kXYZ wtpt bkpt lumi else 0)", kani_args=_NR)
